@@ -284,7 +284,29 @@ def D19():
         shutil.rmtree(d, ignore_errors=True)
 
 
-ALL = {"D19": D19, "D18": D18, "D14": D14, "D15": D15, "D16": D16, "D17": D17, "D1": D1, "D2": D2, "D3": D3, "D4": D4, "D5": D5_D6, "D6": D5_D6, "D7": D7, "D8": D8, "D9": D9, "D10": D10, "D11": D11, "D12": D12, "D13": D13}
+def D20():
+    """the verdict on a request must not depend on how it is cut into reads: header cap vs body bytes in the same read"""
+    sys.path.insert(0, os.environ.get("GVERIF_REPO", "/repo"))
+    from gunicorn.config import Config
+    from gunicorn.http.parser import RequestParser
+
+    def parse(chunks):
+        cfg = Config()
+        cfg.set("limit_request_fields", 1)
+        cfg.set("limit_request_field_size", 30)
+        p = RequestParser(cfg, iter(chunks), ("127.0.0.1", 1))
+        try:
+            r = next(p)
+            return "accepted %s %s" % (r.method, r.path)
+        except Exception as e:
+            return "rejected %s(%s)" % (type(e).__name__, e)
+    req = b"POST / HTTP/1.1\r\nContent-Length: 50\r\n\r\n" + b"x" * 50
+    cut = len(b"POST / HTTP/1.1\r\n")
+    whole, split = parse([req]), parse([req[:cut], req[cut:]])
+    print("D20", "OK" if whole == split else "DEFECT", "one read: %s; request line and the rest in two reads: %s" % (whole, split))
+
+
+ALL = {"D20": D20, "D19": D19, "D18": D18, "D14": D14, "D15": D15, "D16": D16, "D17": D17, "D1": D1, "D2": D2, "D3": D3, "D4": D4, "D5": D5_D6, "D6": D5_D6, "D7": D7, "D8": D8, "D9": D9, "D10": D10, "D11": D11, "D12": D12, "D13": D13}
 
 if __name__ == "__main__":
     want = sys.argv[1:] or ["D1", "D2", "D3", "D4", "D5", "D7", "D8", "D9", "D10", "D11", "D12", "D13"]
